@@ -237,7 +237,9 @@ def pipe_case(group, msg, dst, hn):
 
 def _msgs():
     return [b"", b"abc", b"abcdef0123456789", b"q128_" + b"q" * 128, b"a512_" + b"a" * 512, bytes(range(55)),
-            bytes(range(56)), bytes(range(64)), bytes(i & 0xFF for i in range(1024)), b"\x5a" * 70001]
+            bytes(range(56)), bytes(range(64)), bytes(i & 0xFF for i in range(1024)), b"\x5a" * 70001,
+            # b_0 and a later block of the expansion both start with a zero byte (model search)
+            h2c.leading_zero_message(h2c.DST_G2, 256)]
 
 
 def _tags():
